@@ -17,6 +17,12 @@ META = {
  "C12-manifest-dedupe-against-whole-history": ("C12", "paths manifest entry skipped when the fingerprint appears anywhere in the history", "add A, replace with B, replace with A again (no remove in between)", "C12 quick (get_named_paths-raises / manifest-length)", "after turning an exception inside the checker into a violation (it crashed the worker = inconclusive before)"),
  "C13-last-ignores-file-end-when-scan-overshoots": ("C13", "last() asks only the scanner, which never reports the last line when the scan window reaches past the end of the file", "a bounded scan window / list whose upper bound is beyond the file's last line, and a last() in the match part", "C13 quick (match, vars)", "as first built (window 2-9 on 6-8 line files)"),
  "C14-latch-onchange-reordered": ("C14", "_latch_and_onchange tests 'already latched' before 'value changed'", "latch+onchange on one variable and a later line repeating the latched value", "C14 quick (vote:...latch_onchange...)", "as first built"),
+ "C15-advance-early-return-skips-return-mode": ("C15", "_consider_line returns False early for lines jumped over by advance(), skipping the return-mode inversion", "return-mode: no-matches together with a firing advance(n)", "C15 quick (return-mode)", "as first built"),
+ "C16-keyed-variable-falsy-prints-nothing": ("C16", "print's keyed-variable lookup tests truthiness instead of key presence", "$.variables.x.key whose current value is 0 / 0.0 / False / ''", "C16 quick (text:...)", "after adding tracked variables holding 0.0 / False / '' to the C16 program and reference pool"),
+ "C17-comments-stripped-by-regex-before-parse": ("C17", "in-match ~comments~ are stripped with a regex before the text reaches Lark", "a '~' inside a string literal or regex term together with another '~' (second literal tilde or a real comment later)", "C17 quick (parse-exception / tree-differs-from-source)", "after adding string and regex literals containing '~' to the C17 term pools"),
+ "C18-clean-early-return-skips-run-reset": ("C18", "CsvPaths.clean() returns early when nothing is held for the group, skipping the run-coordination reset", "an aborted run followed, on the same instance, by a run of a DIFFERENT group that has no in-memory results", "C18 quick (next-run-has-no-own-directory)", "after making the follow-up run alternate between the aborted group and another group"),
+ "C19-cacher-returns-shared-headers-list": ("C19", "FileCacher.get_original_headers returns the cached list itself instead of a copy", "jobs through one CsvPaths instance on one file where an earlier job calls append() and a later one observes headers", "C19 quick (in-sequence:headers / vars)", "after adding append() and header-observing components to the C19 job generator"),
+ "C20-tracked-reference-falsy-value-reads-none": ("C20", "Reference._variable_value tests truthiness of the tracked value instead of key presence", "$group.variables.v.key whose final value in the most recent run is 0 / '' / False", "C20 quick (reference-value:k)", "as first built"),
 }
 rows = []
 for d in sorted(glob.glob(S + "/C*")):
